@@ -106,6 +106,8 @@ func Run(c *hx.Ctx) {
 		switch c.Args[1] {
 		case "h2up":
 			h2upCases(c)
+		case "h2set":
+			h2setCases(c)
 		case "hpackx":
 			hpackxCases(c)
 		case "disp":
@@ -234,6 +236,8 @@ func Run(c *hx.Ctx) {
 	h2IndexFrames(c)
 	// upstream side: stream-error frames for an in-flight request on the real HTTP/2 client stream connection
 	h2upCases(c)
+	// [c08l9] upstream side: SETTINGS values at and outside every range edge, then a request with a large header block / body
+	h2setCases(c)
 	// the header block decoder alone
 	seenKv := map[string]bool{}
 	kv := func(b []byte, how string) {
